@@ -349,8 +349,8 @@ def finish(
     if os.environ.get("VERIF_VERBOSE"):
         for r in sorted(results, key=lambda r: -r["wall_s"])[:8]:
             print(f"   slow unit {r['unit']}: {r['wall_s']:.1f}s paths={r['paths']} queries={r['queries']}")
+    if violations:
+        return EXIT_VIOLATION  # a replayed violation stands even if other units had harness trouble
     if harness or not_reproduced:
         return EXIT_HARNESS
-    if violations:
-        return EXIT_VIOLATION
     return EXIT_OK
